@@ -47,7 +47,7 @@ def plan(tier):
         "shards": 16,
         "budget_s": 45 if q else 450,
         "timeout_s": 420 if q else 1800,
-        "min_nontrivial": 100 if q else 750,
+        "min_nontrivial": 100 if q else 500,
         "required_counters": ["oracle_bound", "oracle_exhausted_raises", "oracle_below_limit_completes",
                               "oracle_dummy_first_failure", "cases_dummy", "cases_rollback"],
         "rule": "case = (shape, job, phase, kind, failure count f, limit, manager); all (job, phase) of pipelines 1..3, "
@@ -105,7 +105,7 @@ def run_case(sh: Shard, case: dict) -> None:
     prog, job, ph, kind, f, limit, mgr, seed = (case[k] for k in ("prog", "job", "phase", "kind", "f", "limit", "manager", "seed"))
     faults = [{"job": job, "phase": ph, "kind": kind, "count": f}] if f > 0 else []
     res = R.run_sync(prog, faults, os.path.join(sh.scratch, "case"), seed=seed, failure_manager=mgr,
-                     max_retries=limit, wall_timeout=sh.pick(60, 300))
+                     max_retries=limit, wall_timeout=sh.pick(90, 300))
     key = (prog["shape"], job, ph, kind, f, limit, mgr)
     sh.case(key, nontrivial=C.fired(res) > 0 or f == 0)
     sh.count("cases_dummy" if mgr == "dummy" else "cases_rollback")
@@ -118,8 +118,19 @@ def run_case(sh: Shard, case: dict) -> None:
                    "status": res.status, "exc": res.exc, "attempts_of_failing_phase": attempts, "exec_counts": counts,
                    "versions": res.versions})
 
-    def bad(what):
-        sh.violation(None, f"{what} [shape {prog['shape']} job {job} phase {ph} kind {kind} failures {f} limit {limit} "
+    # C17/retry-not-counted-while-job-recovering: the failed job itself is seen as "recovering" by
+    # _synchronize_workflows (another step of the same job - the second transfer step of a two-input
+    # job - is being recovered at the same time), so _update_request is skipped for that failure and
+    # the job gets one more attempt per such skip than max_retries allows.
+    skipped = sum(1 for sy in res.syncs if sy["failed"] == job and sy["recovering"].get(job) is True)
+    two_input = any(len(j["deps"]) >= 2 for j in R.jobs_of(prog) if j["job"] == job)
+
+    def bad(what, uncounted=False):
+        mech = None
+        if (uncounted and mgr == "default" and two_input and skipped > 0 and limit is not None
+                and 0 < attempts - limit <= skipped and all(n <= limit for n in counts.values())):
+            mech = "C17/retry-not-counted-while-job-recovering"
+        sh.violation(mech, f"{what} [shape {prog['shape']} job {job} phase {ph} kind {kind} failures {f} limit {limit} "
                            f"manager {mgr}]", C.compact(res, prog, faults, seed, {"case": {k: v for k, v in case.items() if k != 'prog'}, "kind": "c17"}))
 
     if res.status == "walltimeout":
@@ -157,16 +168,16 @@ def run_case(sh: Shard, case: dict) -> None:
     if over:
         bad(f"commands executed more than limit={limit} times: {over}")
     if attempts > limit:
-        bad(f"failing phase attempted {attempts} times > limit {limit}")
+        bad(f"failing phase attempted {attempts} times > limit {limit}", uncounted=True)
     vover = {j: v for j, v in res.versions.items() if v > limit}
     if vover:
         bad(f"RecoveryRequest.version exceeds limit {limit}: {vover}")
     if f >= limit:
         sh.count("oracle_exhausted_raises")
         if res.status != "raised":
-            bad(f"job failed {f} >= limit {limit} times but executor.run() ended with status {res.status}")
+            bad(f"job failed {f} >= limit {limit} times but executor.run() ended with status {res.status}", uncounted=True)
         elif attempts != limit:
-            bad(f"exhausted retries: failing phase attempted {attempts} times, expected exactly limit={limit}")
+            bad(f"exhausted retries: failing phase attempted {attempts} times, expected exactly limit={limit}", uncounted=True)
     elif kind == "soft":
         sh.count("oracle_below_limit_completes")
         if res.status != "ok" or res.outputs != [expected]:
